@@ -2559,6 +2559,7 @@ func writeFuncs(repo string, trieFiles []*ast.File, info *types.Info, out string
 	// whole functions of the query path (W-mode, below)
 	writeWhole(&b, info, trieFiles, wTargets)
 	writeLegacy(&b, repo)
+	writePlans(&b, info, trieFiles)
 	b.WriteString("end Generated\n")
 	must(os.WriteFile(out, []byte(b.String()), 0o644))
 	fmt.Printf("funcs written: %d bytes\n", b.Len())
@@ -5338,4 +5339,196 @@ var wTargets = [][2]string{
 	// the legacy loader (slimtrie_marshal.go)
 	{"", "before000512FixLeafSize"},
 	{"", "before000512InnerPrefixTobitstr"},
+}
+
+// ---- P-mode: the DECISION SKELETON of a function ----------------------------------------------------
+//
+// For a function that mostly calls into libraries (Unmarshal: readers, pbcmpl, error wrapping) only the
+// decisions are translated: `<f>_plan compat chk : List String` is the list of the loader steps the
+// function performs on its error-free path, as a function of the two version predicates it branches on,
+//   chk specs = vers.Check(ver, specs…)        compat = vers.IsCompatible(ver, …).
+// Kept: `if` statements whose condition is one of these calls (possibly negated), `return`, and — as
+// events, in source order — the calls of functions / methods of package trie and of pbcmpl.ReadHeader /
+// pbcmpl.Unmarshal (with its destination).  `if err != nil { … return … }` is the error path and is
+// dropped.  Anything else that could change the control flow (loops, switch, goto, other conditions) makes
+// the function untranslatable.
+
+type ptr struct {
+	info *types.Info
+	key  string
+}
+
+func (p *ptr) fail(n ast.Node, why string) { fail(fmt.Sprintf("%s: %s: %s", p.key, why, src(n))) }
+
+func (p *ptr) isPkgSel(e ast.Expr, path, name string) bool {
+	sel, ok := e.(*ast.SelectorExpr)
+	if !ok || sel.Sel.Name != name {
+		return false
+	}
+	id, ok := sel.X.(*ast.Ident)
+	if !ok {
+		return false
+	}
+	pn, ok := p.info.Uses[id].(*types.PkgName)
+	return ok && pn.Imported() != nil && pn.Imported().Path() == path
+}
+
+// cond: the Lean term of a condition, "" for `err != nil` / `err == nil` (the error path)
+func (p *ptr) cond(e ast.Expr) (string, bool) {
+	switch x := e.(type) {
+	case *ast.ParenExpr:
+		return p.cond(x.X)
+	case *ast.UnaryExpr:
+		if x.Op == token.NOT {
+			c, isErr := p.cond(x.X)
+			if isErr {
+				p.fail(e, "negated error test")
+			}
+			return "(!" + c + ")", false
+		}
+	case *ast.BinaryExpr:
+		if (x.Op == token.NEQ || x.Op == token.EQL) && (isNil(x.X) || isNil(x.Y)) {
+			o := x.X
+			if isNil(x.X) {
+				o = x.Y
+			}
+			if id, ok := o.(*ast.Ident); ok && id.Name == "err" && x.Op == token.NEQ {
+				return "", true
+			}
+		}
+	case *ast.CallExpr:
+		if p.isPkgSel(x.Fun, "github.com/openacid/low/vers", "Check") && len(x.Args) >= 2 && !x.Ellipsis.IsValid() {
+			var specs []string
+			for _, a := range x.Args[1:] {
+				tv := p.info.Types[a]
+				if tv.Value == nil || tv.Value.Kind() != constant.String {
+					p.fail(a, "version specification that is not a constant string")
+				}
+				specs = append(specs, leanStr(constant.StringVal(tv.Value)))
+			}
+			return "chk [" + strings.Join(specs, ", ") + "]", false
+		}
+		if p.isPkgSel(x.Fun, "github.com/openacid/low/vers", "IsCompatible") && len(x.Args) == 2 {
+			return "compat", false
+		}
+	}
+	p.fail(e, "condition that is not a version test")
+	return "", false
+}
+
+// events: the loader steps inside a statement or expression, in source order
+func (p *ptr) events(n ast.Node) []string {
+	var evs []string
+	ast.Inspect(n, func(x ast.Node) bool {
+		switch c := x.(type) {
+		case *ast.FuncLit:
+			p.fail(c, "closure")
+		case *ast.CallExpr:
+			if p.isPkgSel(c.Fun, "github.com/openacid/low/pbcmpl", "ReadHeader") {
+				evs = append(evs, "pbcmpl.ReadHeader")
+			}
+			if p.isPkgSel(c.Fun, "github.com/openacid/low/pbcmpl", "Unmarshal") && len(c.Args) == 2 {
+				evs = append(evs, "pbcmpl.Unmarshal "+src(c.Args[1]))
+			}
+			var id *ast.Ident
+			switch f := c.Fun.(type) {
+			case *ast.Ident:
+				id = f
+			case *ast.SelectorExpr:
+				id = f.Sel
+			}
+			if id != nil {
+				if fo, ok := p.info.Uses[id].(*types.Func); ok && fo.Pkg() != nil && fo.Pkg().Name() == "trie" {
+					evs = append(evs, fo.Name())
+				}
+			}
+		}
+		return true
+	})
+	return evs
+}
+
+func endsWithReturn(stmts []ast.Stmt) bool {
+	if len(stmts) == 0 {
+		return false
+	}
+	_, ok := stmts[len(stmts)-1].(*ast.ReturnStmt)
+	return ok
+}
+
+// plan: the Lean term (a List String) of a statement list followed by `rest`
+func (p *ptr) plan(stmts []ast.Stmt, rest string) string {
+	if len(stmts) == 0 {
+		return rest
+	}
+	s, tail := stmts[0], stmts[1:]
+	cons := func(evs []string, t string) string {
+		for i := len(evs) - 1; i >= 0; i-- {
+			t = leanStr(evs[i]) + " :: " + t
+		}
+		return t
+	}
+	switch x := s.(type) {
+	case *ast.ReturnStmt:
+		return cons(p.events(x), "[]")
+	case *ast.BlockStmt:
+		return p.plan(append(append([]ast.Stmt{}, x.List...), tail...), rest)
+	case *ast.IfStmt:
+		if x.Init != nil {
+			p.fail(x, "if with an init statement")
+		}
+		c, isErr := p.cond(x.Cond)
+		if isErr {
+			if x.Else != nil || !endsWithReturn(x.Body.List) {
+				p.fail(x, "error test that does not end the function")
+			}
+			return p.plan(tail, rest) // the error path is not part of the plan
+		}
+		after := p.plan(tail, rest)
+		thn := p.plan(x.Body.List, after)
+		els := after
+		if x.Else != nil {
+			els = p.plan([]ast.Stmt{x.Else}, after)
+		}
+		return "(if " + c + " then " + thn + " else " + els + ")"
+	case *ast.ExprStmt, *ast.AssignStmt, *ast.DeclStmt, *ast.IncDecStmt, *ast.EmptyStmt:
+		return cons(p.events(s), p.plan(tail, rest))
+	}
+	p.fail(s, "statement that may change the control flow")
+	return ""
+}
+
+var planTargets = [][2]string{
+	{"SlimTrie", "Unmarshal"},
+	{"", "before000510"},
+}
+
+func writePlans(b *strings.Builder, info *types.Info, files []*ast.File) {
+	b.WriteString("/-! ## decision skeletons: the loader steps as a function of the version tests -/\nnamespace WP\n\n")
+	for _, t := range planTargets {
+		key := wkey(t[0], t[1])
+		func() {
+			defer func() {
+				if r := recover(); r != nil {
+					msg := fmt.Sprint(r)
+					if ge, ok := r.(groupError); ok {
+						msg = ge.msg
+					}
+					msg = strings.ReplaceAll(msg, "\n", " ")
+					fmt.Fprintf(b, "-- cannot translate WP.%s: %s\n\n", key, msg)
+					fmt.Fprintf(os.Stderr, "extract: funcs: cannot translate WP.%s: %s\n", key, msg)
+				}
+			}()
+			c := newWctx(info, files)
+			fd := c.findFunc(t[0], t[1])
+			if fd == nil {
+				fail(key + ": no (unique) declaration with a body")
+			}
+			p := &ptr{info: info, key: key}
+			body := p.plan(fd.Body.List, "[]")
+			fmt.Fprintf(b, "/-- decision skeleton of %s (%s) -/\ndef %s_plan (compat : Bool) (chk : List String → Bool) : List String :=\n  %s\n\n",
+				key, filepath.Base(fset.Position(fd.Pos()).Filename), t[1], body)
+		}()
+	}
+	b.WriteString("end WP\n\n")
 }
